@@ -118,6 +118,23 @@ def run(ctx):
         ksample.k_sample(np.arange(4.0), grp, reps=1, stat=lambda x, gg, xb: (seen.append(tuple(int(v) for v in gg)), 0.0)[1], seed=g)
         return seen[-1]
     designs.append(("k_sample relabellings [0,0,1,2]", "k_sample", runk, multiset_perms([0, 0, 1, 2]), tuple((4 - i, "fy") for i in range(4))))
+    # bivariate_k_sample: the treatment labels are rearranged within every block, also when block labels are no treatment labels
+    for g1_, g2_ in (([5, 5, 7, 7], [0, 1, 0, 1]), ([3, 3, 3, 4], [0, 1, 2, 0]), ([1, 2, 1, 2, 3], [1, 1, 2, 2, 1])):
+        g1a, g2a = np.array(g1_), np.array(g2_)
+        def runb(g, g1a=g1a, g2a=g2a):
+            seen = []
+            ksample.bivariate_k_sample(np.arange(float(len(g1a))), g1a, g2a, reps=1, stat=lambda x_, a_, b_, xb: (seen.append(tuple(int(v) for v in b_)), 0.0)[1], seed=g)
+            return seen[-1]
+        admb = set()
+        labs_ = sorted(set(g1_))
+        for combo in itertools.product(*[set(itertools.permutations([g2_[i] for i in range(len(g1_)) if g1_[i] == k_])) for k_ in labs_]):
+            out_ = list(g2_)
+            for k_, arrangement in zip(labs_, combo):
+                for pos_, v_ in zip([i for i in range(len(g1_)) if g1_[i] == k_], arrangement):
+                    out_[pos_] = v_
+            admb.add(tuple(out_))
+        sizes_ = [g1_.count(k_) for k_ in labs_]
+        designs.append((f"bivariate_k_sample blocks {g1_} treatments {g2_}", "bivariate_k_sample", runb, admb, tuple((s_ - i, "fy") for s_ in sizes_ for i in range(s_))))
     ctx.exhaustive = True
     all_ok = True
     for name, site, runner, adm, arity, cls in [d + (Tree,) for d in designs] + [d + (TreeRS,) for d in designs]:
